@@ -123,7 +123,12 @@ def execute(ctx, case):
             elif form == "list":
                 fn(tg.tolist(), method=method)
             elif form == "2d":
-                fn(np.resize(tg, (2, 6)), method=method)
+                g2 = np.resize(tg, (2, 6))
+                fn(g2, method=method)
+                # the same grid of targets in other memory layouts (Fortran order, a transposed view, a 3-d transposed block): M-thr judges every element
+                fn(np.asfortranarray(g2), method=method)
+                fn(np.ascontiguousarray(g2.T).T, method=method)
+                fn(np.resize(tg, (2, 3, 2)).transpose(2, 0, 1), method=method)
             else:
                 fn(tg, method=method)
         getattr(s, "threshold_at_" + ALIAS[m])(tg)  # alias path
